@@ -12,11 +12,11 @@ CmpOps == {"eq", "ne", "gt", "gte", "lt", "lte", "eeq", "ene"}
 OrdOps == {"eq", "ne", "gt", "gte", "lt", "lte"}
 
 IntLits(col) ==
-  CASE col = "size" -> { IntL(v) : v \in {0, 1, 8, 9, 10, 11, 12, 100, 1022, 1023, 1024, 1025, 1026, 2048, 2049, 4096} }
+  CASE col = "size" -> { IntL(v) : v \in {-2, -1, 0, 1, 8, 9, 10, 11, 12, 100, 1022, 1023, 1024, 1025, 1026, 2048, 2049, 4096} }
                        \cup { SizeL(1024, "1k"), SizeL(1000, "1kb"), SizeL(1024, "1kib"), SizeL(2048, "2k"), SizeL(1024, "1K"), SizeL(10, "10b") }
-    [] col = "uid" -> { IntL(v) : v \in {0, 1, 999, 1000, 1001} }
+    [] col = "uid" -> { IntL(v) : v \in {-1, 0, 1, 999, 1000, 1001} }
     [] col = "gid" -> { IntL(v) : v \in {0, 999, 1000, 1001, 2000} }
-    [] col = "hardlinks" -> { IntL(v) : v \in {0, 1, 2, 3} }
+    [] col = "hardlinks" -> { IntL(v) : v \in {-1, 0, 1, 2, 3} }
     [] col = "line_count" -> { IntL(v) : v \in {0, 1, 2, 3, 4, 5} }
     [] col = "length(name)" -> { IntL(v) : v \in {2, 3, 4, 5, 6, 8, 9} }
 
